@@ -178,6 +178,17 @@ func c06RolesJob(tier string) *SeqJob {
 			KeyCharacters:   tally.ValidCharacters{Ranges: []tally.SanitizeRange{{'0', '9'}}},
 			ValueCharacters: tally.ValidCharacters{Ranges: []tally.SanitizeRange{{'A', 'Z'}}}, ReplacementCharacter: '_'}},
 	}
+	// one Ranges slice with spare capacity shared by the three classes, which differ in their extra characters;
+	// the application appends to that slice after the sanitizer has been built
+	shared := make([]tally.SanitizeRange, 0, 8)
+	shared = append(shared, tally.SanitizeRange{'a', 'z'}, tally.SanitizeRange{'0', '9'})
+	cfgs = append(cfgs, struct {
+		name string
+		o    tally.SanitizeOptions
+	}{"shared ranges a-z0-9 (cap 8) / name +.- / key +_ / value +.:", tally.SanitizeOptions{
+		NameCharacters:  tally.ValidCharacters{Ranges: shared, Characters: []rune{'.', '-'}},
+		KeyCharacters:   tally.ValidCharacters{Ranges: shared, Characters: []rune{'_'}},
+		ValueCharacters: tally.ValidCharacters{Ranges: shared, Characters: []rune{'.', ':'}}, ReplacementCharacter: '!'}})
 	strs := []string{"a.b", "a_b", "aZ9", "é.", ""}
 	roles := []string{"Name", "Key", "Value"}
 	var alphabet []string
@@ -192,6 +203,10 @@ func c06RolesJob(tier string) *SeqJob {
 			cl, det = guard(func() (string, string) {
 				c := cfgs[ci]
 				san := tally.NewSanitizer(c.o)
+				if cap(c.o.NameCharacters.Ranges) > len(c.o.NameCharacters.Ranges) {
+					// the application goes on using its slice: this writes into the spare capacity
+					_ = append(c.o.NameCharacters.Ranges, tally.SanitizeRange{'A', 'Z'})
+				}
 				for _, op := range hist {
 					role, str := roles[op/len(strs)], strs[op%len(strs)]
 					var got, want string
